@@ -17,6 +17,7 @@
    Floats are exact rationals; == is equality of rationals. *)
 From Coq Require Import ZArith QArith List Bool.
 From RV Require Import Base.Wire Base.NumM Base.XFloat Gen.C19Motor Host.Servo Host.ActuatorsX Proofs.NumMP Proofs.ServoP Proofs.ActuatorsXP.
+From RV Require Import Host.ServoFloat Proofs.ServoFloatP.
 Import ListNotations.
 Local Open Scope Q_scope.
 
@@ -259,3 +260,70 @@ Proof.
   - apply ServoP.init_inv; [split; reflexivity | reflexivity | reflexivity].
 Qed.
 Print Assumptions C19_servo_history_nonvacuous.
+
+(* ====================================================================================
+   The two linear maps in BINARY64 (Host/ServoFloat.v).  The theorems above are over exact rationals, where
+   the maps send [min, max] onto [min, max]; CPython rounds each of the five operations ([fl]), and the
+   clause "angle and pulse stay within their bounds" is an EXACT inequality.
+     a2p_fl s a / p2a_fl s p   the maps as CPython computes them;  sstep_fl := the class with them
+     top_exact lo hi           := fl (lo + fl (hi - lo)) = hi     (executable guard of the generators)
+   ==================================================================================== *)
+
+(* REFUTED on the unchanged code (finding F-C19-servo-bound-ulp): Servo(9, min_pulse_us=543.9,
+   max_pulse_us=2000.2).write(180) - an angle within its bounds - leaves a pulse ABOVE max_pulse_us *)
+Theorem C19_servo_binary64_pulse_bound_refuted :
+  exists s v, is_b64 (min_p s) = true /\ is_b64 (max_p s) = true /\ min_a s < max_a s /\ min_p s < max_p s /\
+    py_between (min_a s) (max_a s) v = Some true /\
+    max_p s < cur_p (sstate (sstep_fl s (SWrite v))).
+Proof.
+  exists pulse_witness, (PI 180).
+  destruct ServoFloatP.pulse_witness_facts as (A & B & D & E & _ & F).
+  split; [exact A|]. split; [exact B|]. split; [reflexivity|]. split; [exact D|]. split; [reflexivity|].
+  rewrite F. exact E.
+Qed.
+Print Assumptions C19_servo_binary64_pulse_bound_refuted.
+
+(* ... and Servo(9, min_angle=-90.7, max_angle=90.1).write_us(2400) leaves an angle ABOVE max_angle *)
+Theorem C19_servo_binary64_angle_bound_refuted :
+  exists s, is_b64 (min_a s) = true /\ is_b64 (max_a s) = true /\ min_a s < max_a s /\ min_p s < max_p s /\
+    max_a s < p2a_fl s (max_p s) /\ servo_top_exact s = false.
+Proof.
+  exists angle_witness. destruct ServoFloatP.angle_witness_facts as (A & B & D & E & F).
+  split; [exact A|]. split; [exact B|]. split; [exact D|]. split; [reflexivity|]. split; [exact E | exact F].
+Qed.
+Print Assumptions C19_servo_binary64_angle_bound_refuted.
+
+(* both witnesses are outside the guard; the default calibration is inside and maps its ends exactly *)
+Theorem C19_servo_binary64_default_calibration :
+  let s := mkServo (PI 9) 0 180 544 2400 0 544 in
+  servo_top_exact s = true /\ a2p_fl s 180 = 2400 /\ a2p_fl s 0 = 544 /\ p2a_fl s 2400 = 180 /\ p2a_fl s 544 = 0 /\
+  a2p_fl s 90 = 1472.
+Proof. exact ServoFloatP.default_calibration_exact. Qed.
+Print Assumptions C19_servo_binary64_default_calibration.
+
+(* what holds exactly in binary64 for every servo and argument: the commanded coordinate is stored as given
+   (write/read and write_us/read_us round-trip), a failing call changes nothing, the configuration is constant *)
+Theorem C19_servo_binary64_write_roundtrip : forall s v,
+  py_between (min_a s) (max_a s) v = Some true ->
+  cur_a (sstate (sstep_fl s (SWrite v))) = qval v /\
+  sresult (sstep_fl (sstate (sstep_fl s (SWrite v))) SRead) = Ok (SFloat (qval v)).
+Proof. exact ServoFloatP.write_fl_stores_argument. Qed.
+Print Assumptions C19_servo_binary64_write_roundtrip.
+
+Theorem C19_servo_binary64_write_us_roundtrip : forall s v,
+  py_between (min_p s) (max_p s) v = Some true ->
+  cur_p (sstate (sstep_fl s (SWriteUs v))) = qval v /\
+  sresult (sstep_fl (sstate (sstep_fl s (SWriteUs v))) SReadUs) = Ok (SFloat (qval v)).
+Proof. exact ServoFloatP.write_us_fl_stores_argument. Qed.
+Print Assumptions C19_servo_binary64_write_us_roundtrip.
+
+Theorem C19_servo_binary64_failed_call_atomic : forall s op s' evs k,
+  sstep_fl s op = (s', evs, Raised k) -> s' = s /\ evs = [].
+Proof. exact ServoFloatP.servo_failed_atomic_fl. Qed.
+Print Assumptions C19_servo_binary64_failed_call_atomic.
+
+Theorem C19_servo_binary64_config_constant : forall s op,
+  let s' := sstate (sstep_fl s op) in
+  sv_pin s' = sv_pin s /\ min_a s' = min_a s /\ max_a s' = max_a s /\ min_p s' = min_p s /\ max_p s' = max_p s.
+Proof. exact ServoFloatP.servo_config_constant_fl. Qed.
+Print Assumptions C19_servo_binary64_config_constant.
